@@ -10,7 +10,7 @@ from typing import Callable, Mapping, Sequence, Tuple
 
 import sympy
 import sympy.parsing
-from pyrefact import constants, core, processing
+from pyrefact import constants, core, parsing, processing
 
 
 def _get_range_start_end(rng: ast.Call) -> Tuple[ast.AST, ast.AST]:
@@ -634,7 +634,11 @@ def simplify_boolean_expressions(source: str) -> str:
             left = core.literal_value(node.left)
             right = core.literal_value(comparator)
         except ValueError:
-            if isinstance(operator, ast.Eq) and core.unparse(node.left) == core.unparse(comparator):
+            if (
+                isinstance(operator, ast.Eq)
+                and core.unparse(node.left) == core.unparse(comparator)
+                and not core.has_side_effect(node.left, parsing.safe_callable_names(root))
+            ):
                 yield node, ast.Constant(value=True, kind=None)
 
             continue
